@@ -136,11 +136,11 @@ theorem dataShards_size (s : Bytes) (hs : s ∈ G.dataShards) : s.length = G.max
   omega
 
 theorem length_parityShards (hC : Lawful C) (hG : G.WF) : (G.parityShards C).length = G.p :=
-  hC.enc_length _ _ _ (length_dataShards hG)
+  hC.enc_length _ _ _ hG.d_pos hG.p_pos hG.n_le (length_dataShards hG)
 
 theorem parityShards_size (hC : Lawful C) (hG : G.WF) (s : Bytes) (hs : s ∈ G.parityShards C) :
     s.length = G.maxLen :=
-  hC.enc_size _ _ _ _ (length_dataShards hG) dataShards_size s hs
+  hC.enc_size _ _ _ _ hG.d_pos hG.p_pos hG.n_le (length_dataShards hG) dataShards_size s hs
 
 theorem length_codeword (hC : Lawful C) (hG : G.WF) : (G.codeword C).length = G.n := by
   simp only [Group.codeword, List.length_append, length_dataShards hG, length_parityShards hC hG,
@@ -489,7 +489,7 @@ theorem recover_genuine (hC : Lawful C) (hG : G.WF) (dec : Decoder)
         apply List.filter_congr; intro k _; simp
       rw [h2, this, hlen]; exact Nat.le_refl _
     have hrec := hC.recon G.d G.p G.maxLen G.dataShards
-      ((List.range G.n).map (fun k => decide (k ∈ idxs))) hG.d_pos
+      ((List.range G.n).map (fun k => decide (k ∈ idxs))) hG.d_pos hG.p_pos hG.n_le
       (by have := two_le_maxLen hG; omega) (length_dataShards hG) dataShards_size
       (by simp [Group.n]) hcount
     have hg := gather_eq_mask hC hG idxs hb
